@@ -61,7 +61,7 @@ pub trait OperandHandler {
         expand_arrays: ExpandArrays,
     ) {
         match expr {
-            Expr::Lit(_) => Self::replace_literals(expr, arguments),
+            Expr::Lit(_) => Self::replace_literals(expr, arguments, ident_provider, ident_kind),
             Expr::Ident(_) => {
                 if ident_mode == IdentMode::Replace {
                     expr.map_with_mut(|op| {
@@ -123,8 +123,13 @@ pub trait OperandHandler {
         }
     }
 
-    fn replace_literals(operand: &mut Expr, arguments: &mut Vec<ExprOrSpread>) {
-        arguments.push(ExprOrSpread::from(operand.clone()))
+    fn replace_literals(
+        operand: &mut Expr,
+        arguments: &mut Vec<ExprOrSpread>,
+        ident_provider: &mut dyn IdentProvider,
+        ident_kind: IdentKind,
+    ) {
+        arguments.push(ident_provider.get_expr_or_spread(operand, ident_kind))
     }
 
     fn replace_default(
